@@ -61,7 +61,7 @@ class _StubRS:
 
 def _ops(extint):
     ops = ['RA', 'RB', 'IA', 'IB', 'P1', 'P2', 'P0', 'N1', 'N0', 'W', 'W0',
-           'rH', 'rB', 'T']
+           'rH', 'rB', 'T', 'IX']
     return ops
 
 
@@ -80,6 +80,22 @@ def _apply(ch, sh, op, mk, extint, tag):
     """apply op to the real object `ch` and to the shadow `sh`;
     `mk` makes values: mk.cmat(name, shape), mk.pmat(name, shape), mk.pos(name)"""
     K = 2
+    if op == 'IX':
+        # a re-initialisation that must be REFUSED (matrix shape does not fit
+        # the announced antenna counts): ValueError and no side effect
+        Nr, Nt = sh.layout
+        Nr2, Nt2 = [Nr[1] + 1, Nr[0]], [Nt[1], Nt[0] + 1]
+        M = mk.cmat('X' + tag, (sum(Nr), sum(Nt) + extint))
+        try:
+            if extint:
+                ch.init_from_channel_matrix(M, np.array(Nr2), np.array(Nt2),
+                                            K, extint)
+            else:
+                ch.init_from_channel_matrix(M, np.array(Nr2), np.array(Nt2),
+                                            K)
+        except ValueError:
+            return
+        raise AssertionError('malformed re-initialisation was accepted')
     if op[0] in 'RI':
         Nr, Nt = LAYOUTS[op[1]]
         cols = sum(Nt) + extint
@@ -189,7 +205,7 @@ class Views(Harness):
     bounds = ('K=2; antenna layouts A=(Nr [1,2], Nt [2,1]) and B=(Nr [2,1], '
               'Nt [1,2]) (same totals, different split); histories = initial randomize/init + up to 2 '
               '(quick; plus all update-read/transmit-update triples) / 3 '
-              '(thorough) further operations from a 14-letter alphabet '
+              '(thorough) further operations from a 15-letter alphabet '
               '(layout C = Nr [2,1], Nt [1,1] in a few extra histories); plain and external-interference (1 source, 1 '
               'antenna) channels; 1 data symbol per antenna')
     stubs = ('_RS_channel / _RS_noise -> stub whose randn returns fresh '
@@ -558,7 +574,7 @@ HARNESSES = [Views()]
 MANIFEST = dict(
     category='model_checking',
     text='Bounded model checking of the channel object as a state machine: '
-    'all operation histories up to the stated length over a 14-letter '
+    'all operation histories up to the stated length over a 15-letter '
     'alphabet (including cache-populating reads and antenna-layout changes), '
     'with symbolic matrices, path losses, noise and data; after each history '
     'every public view is proved equal (polynomial normal form with sqrt '
